@@ -1,4 +1,10 @@
-"""C02 — event selection equals loading everything and slicing.  Tie C (+ oracle on the real classes).
+"""C02 — event selection equals loading everything and slicing.  Tie T + C (+ oracle on the real classes).
+
+translate  : `BaseStorer.particle_list` zero-event guard (translate/particlelist.py) and the event-selection arithmetic of
+             OscarLoader / JetscapeLoader (translate/readersel.py -> Gen/ReaderSelGen.lean: validation of `events`,
+             `_get_num_skip_lines`, `__get_num_read_lines`, prelude of `set_particle_list`, count-row tuples,
+             `first_event_header`, `event_index`, selection of impact parameters), proved equal to the hand-written model in
+             Lemmas/ReaderSelGenGen.lean; the line loop itself stays a hand-written mirror.
 
 correspond : generated Oscar2013 / Extended / ASCII / JETSCAPE files (every pattern of empty events for <= 4 events)
              x every valid selector (each k, each a <= b) and invalid ones (out of range, negative, reversed)
@@ -26,6 +32,7 @@ import common
 import pmodel
 import rmodel
 from translate import particlelist as tpl
+from translate import readersel as trs
 
 warnings.filterwarnings("ignore")
 np.seterr(all="ignore")
@@ -52,11 +59,15 @@ KF_NOKEPT = "particle_list-raises:no-event-kept"
 
 
 def translate(ctx):
-    """tie T: does `BaseStorer.particle_list` handle `num_events_ == 0` before indexing the counts array?"""
+    """tie T: (1) does `BaseStorer.particle_list` handle `num_events_ == 0` before indexing the counts array?
+    (2) the event-selection arithmetic of OscarLoader / JetscapeLoader (validation of `events`, `_get_num_skip_lines`,
+    `__get_num_read_lines`, the bookkeeping prelude of `set_particle_list`, count-row tuples, `first_event_header`,
+    `event_index`, the selection of impact parameters by `loaded_event_indices_`) -> Gen/ReaderSelGen.lean.
+    `Untranslatable` from (2) -> golden model, tie = correspondence only (common.standard_flow)."""
     text, regions = tpl.render(common.read_src("BaseStorer.py"))
     changed = common.write_if_changed(common.LEAN / "SparkxVerif/Gen/ParticleList.lean", text)
     golden = common.LEAN / "golden/Gen/ParticleList.lean"
-    ctx.cov["gen_equals_golden"] = golden.exists() and golden.read_text() == text
+    pl_golden = golden.exists() and golden.read_text() == text
     ctx.cov["zero_events_guard"] = regions[0]["zero_events_guard"]
     if changed:
         ctx.notes.append("Gen/ParticleList.lean regenerated (source differs from last run)")
@@ -67,7 +78,22 @@ def translate(ctx):
                                               if regions[0]["zero_events_guard"] else
                                               "no guard for num_events == 0 -> only C02_particleList_partial applies; "
                                               "particleList_fails_when_nothing_kept is the witness monitored by the oracle"))
-    return regions
+    ctx.cov["gen_equals_golden"] = pl_golden        # refined below; stays as is if the selection translator raises
+    gtext, gregions, _ = trs.render_all(common.read_src(trs.SRC_OSCAR), common.read_src(trs.SRC_JETSCAPE))
+    gchanged = common.write_if_changed(common.LEAN / "SparkxVerif/Gen/ReaderSelGen.lean", gtext)
+    ggolden = common.LEAN / "golden/Gen/ReaderSelGen.lean"
+    sel_golden = ggolden.exists() and ggolden.read_text() == gtext
+    ctx.cov["gen_equals_golden"] = pl_golden and sel_golden
+    ctx.cov["readersel_equals_golden"] = sel_golden
+    if gchanged:
+        ctx.notes.append("Gen/ReaderSelGen.lean regenerated (source differs from last run)")
+    ctx.cov["tie"] = ("T + C: the selection arithmetic of OscarLoader / JetscapeLoader (validation of `events`, _get_num_skip_lines, "
+                      "__get_num_read_lines, prelude of set_particle_list: counts slice / num_events_ / first_label / event_index, "
+                      "count-row tuples, first_event_header, selection of impact parameters by loaded_event_indices_) and the "
+                      "num_events == 0 guard of BaseStorer.particle_list are regenerated from the source and proved equal to the "
+                      "model (genReadOscar_eq, genReadJetscape_eq); the line loop (classification, filters, closeEvent) and "
+                      "ParticleObjectStorer slicing are hand-written mirrors tied by correspondence")
+    return regions + gregions
 
 
 def keys_of(kind):
@@ -563,7 +589,12 @@ def correspond(ctx):
                 "generator / iterator or with iterator events (rejected with TypeError: the reference load of the session is the "
                 "probe, every call must agree with it); calls inside a fresh cwd with a bare relative file name, with "
                 "np.seterr(all='warn'), unusual print options and advanced global random generators — cwd, np.geterr(), print "
-                "options and both global generators must be left as found")
+                "options and both global generators must be left as found.  Tie C on top of tie T: every file case is also "
+                "read by the shared line loop driven by the selection arithmetic GENERATED from the current loaders (driver op "
+                "`gobs`; without filters its impact parameters come from the generated event_index start value and the generated "
+                "selection by loaded_event_indices_), and the generated _get_num_skip_lines / __get_num_read_lines are compared "
+                "with the real private methods on loader objects holding given count rows (`garith`: exhaustive for 1-3 rows, "
+                "random rows up to 12 events, selectors inside and beyond the last event)")
     ctx.assumptions.append("C02 text variants: only free-text lines are varied (Oscar units/version line, JETSCAPE first line); a "
                            "variant file is an admissible input iff the plain full load reads it (trailing blanks on token lines "
                            "change the token count and are outside the file grammar); `events=` accepts a Python int or a tuple of "
@@ -583,24 +614,27 @@ def correspond(ctx):
     exj_text = "# JETSCAPE_FINAL_STATE v2\n# Event 1 weight 1 EPangle 0 N_hadrons 0\n# sigmaGen 1 sigmaErr 0\n"
     extra = ["pyint\t0", "pyint\t1", "\t".join(["obs", "oscar", "one:1", "-", "-", "1,0", common.hexs(ex_text)]),
              "\t".join(["obs", "jetscape", "one:0", "-", "-", "0", common.hexs(exj_text)])]
+    glines = [gobs_line(spec, sel, calls) for spec, sel, calls in cases]
     t0 = time.time()
-    outs = common.run_driver("C02", lines + extra)
+    outs_all = common.run_driver("C02", lines + extra + glines)
+    outs, gouts = outs_all[:len(lines) + len(extra)], outs_all[len(lines) + len(extra):]
     ctx.cov["driver_s"] = round(time.time() - t0, 1)
     ex = outs[len(lines):]
     if ex[0] != "ok 0" or ex[1] != "ok 1" or " wf=1 " not in ex[2] or not ex[2].startswith("ok ne=1 counts=2d:1.0 fmt=ASCII attrs=ID") \
             or " wf=1 " not in ex[3] or not ex[3].startswith("ok ne=1 counts=2d:1.0 fmt=- "):
         ctx.brk("correspondence-broken", f"the example file / pyInt? facts of Props/C02.lean do not evaluate as stated: {ex}")
-    for (spec, sel, calls), ans, line in zip(cases, outs, lines):
+    for (spec, sel, calls), ans, line, gans in zip(cases, outs, lines, gouts):
         n = len(spec.events)
         real = real_obs(spec, sel, calls)
         model, wf, specside = split_obs(ans)
+        gmodel = gans
         tag = sel_tag(sel, n)
         if calls and real.startswith("ok ne="):
             # impact parameters after constructor filters REMOVED an event are C06's subject (own end line of every kept
             # event vs lookup by the renumbered label); C02 compares them whenever no event was removed
             nsel = n if sel is None else (1 if not isinstance(sel, tuple) else sel[1] - sel[0] + 1)
             if int(real.split()[1][3:]) != nsel:
-                real, model = mask_imp(real), mask_imp(model)
+                real, model, gmodel = mask_imp(real), mask_imp(model), mask_imp(gmodel)
                 specside = mask_imp(specside) if specside else specside
         valid = "invalid" not in tag
         has_empty = any(len(e) == 0 for e in spec.events)
@@ -622,11 +656,97 @@ def correspond(ctx):
         if real != model:
             ctx.brk("correspondence-broken", f"{spec.kind} events={sel} filters={enc_calls(calls)}: code `{real}` vs model `{model}`",
                     case=rd)
+        if real != gmodel:
+            ctx.brk("correspondence-broken", f"{spec.kind} events={sel} filters={enc_calls(calls)}: code `{real}` vs the reader driven "
+                    f"by the GENERATED selection arithmetic (Gen/ReaderSelGen.lean) `{gmodel}`", case=rd)
         if valid and specside is not None and model != specside:
             ctx.brk("correspondence-broken", f"{spec.kind} events={sel} filters={enc_calls(calls)}: model `{model}` differs from its "
                     f"own spec side (slice / ctorFilter) `{specside}` — contradicts select_eq_slice / select_filter", case=rd)
     cleanup_tmp()
+    correspond_arith(ctx)
     correspond_pos(ctx)
+
+
+def gobs_line(spec, sel, calls):
+    kind = "oscar" if not spec.is_jetscape() else spec.kind
+    return "\t".join(["gobs", kind, rmodel.sel_enc(sel), rmodel.filters_enc(calls),
+                      rmodel.views_enc(spec) if calls is not None else "-", common.hexs(spec_decoded(spec))])
+
+
+# ----------------------------------------------------------------------------- generated arithmetic vs the private methods
+def real_arith(kind, rows, sel):
+    """`_get_num_skip_lines()` / `__get_num_read_lines()` of a loader object that holds these count rows"""
+    if kind == "oscar":
+        from sparkx.loader.OscarLoader import OscarLoader as L
+    else:
+        from sparkx.loader.JetscapeLoader import JetscapeLoader as L
+    out = []
+    for meth in ("_get_num_skip_lines", f"_{L.__name__}__get_num_read_lines"):
+        ld = L.__new__(L)
+        ld.optional_arguments_ = {} if sel is None else {"events": sel}
+        ld.num_output_per_event_ = np.array(rows, dtype=np.int32, ndmin=2)
+        try:
+            v = getattr(ld, meth)()
+            out.append(str(int(v)))
+        except Exception as e:
+            out.append(rmodel.classify(e).replace(" ", "-"))
+    return f"ok skip={out[0]} nread={out[1]}"
+
+
+def gen_arith_case(rng):
+    n = rng.choice([1, 1, 2, 3, 4, 5, 7, 9, 12])
+    base = rng.choice([0, 0, 1, 1, 5])
+    rows = [(base + i, rng.choice([0, 0, 1, 2, 3, 7, 12, 40])) for i in range(n)]
+    r = rng.random()
+    if r < 0.1:
+        sel = None
+    elif r < 0.45:
+        sel = rng.randint(0, n + 1)
+    else:
+        a = rng.randint(0, n)
+        sel = (a, rng.randint(a, n + 1))
+    return rng.choice(["oscar", "jetscape"]), rows, sel
+
+
+def arith_view(ans):
+    """what a load can observe of the two methods: `__get_num_read_lines` runs first; when it raises,
+    `_get_num_skip_lines` is never called"""
+    if " nread=" not in ans:
+        return ans
+    head, nread = ans.rsplit(" nread=", 1)
+    return ans if nread.lstrip("-").isdigit() else "ok skip=* nread=" + nread
+
+
+def correspond_arith(ctx):
+    """tie C on top of tie T for the two line-count methods: the generated definitions (driver op `garith`) vs the real
+    private methods on a loader object that holds the same count rows — for selectors that pass the validation of `load`
+    (the methods are reached only after it), also out of range (IndexError of the numpy row access); `__get_num_read_lines`
+    runs first in `set_particle_list`, so the skip count is compared only where it does not raise"""
+    rng = ctx.rng
+    cases = []
+    for kind in ("oscar", "jetscape"):                       # exhaustive small scope
+        for n in (1, 2, 3):
+            rows = [(i + (kind == "jetscape"), [2, 0, 5][i]) for i in range(n)]
+            for sel in [None] + list(range(0, n + 2)) + [(a, b) for a in range(0, n + 1) for b in range(a, n + 2)]:
+                cases.append((kind, rows, sel))
+    cases += [gen_arith_case(rng) for _ in range(ctx.n(150, 1500))]
+    lines = ["\t".join(["garith", kind, rmodel.sel_enc(sel), ",".join(f"{a}.{b}" for a, b in rows)]) for kind, rows, sel in cases]
+    outs = common.run_driver("C02", lines)
+    for (kind, rows, sel), out in zip(cases, outs):
+        real, out = arith_view(real_arith(kind, rows, sel)), arith_view(out)
+        n = len(rows)
+        if "other" in real:
+            # the private methods could not be run on a bare loader object (refactored internals: other attributes, other
+            # method names).  They are not observables of the property; the whole-load comparison (`gobs`) carries the tie.
+            ctx.count(f"garith/{kind}/unavailable")
+            continue
+        inside = sel is not None and (0 <= sel < n if not isinstance(sel, tuple) else 0 <= sel[0] <= sel[1] < n)
+        ctx.case(("garith", kind, tuple(rows), sel), bool(inside and n > 1))
+        ctx.count(f"garith/{kind}/" + ("all" if sel is None else "inside" if inside else "outside"))
+        if real != out:
+            ctx.brk("correspondence-broken", f"{kind} loader, count rows {rows}, events={sel}: real _get_num_skip_lines / "
+                    f"__get_num_read_lines `{real}` vs the GENERATED definitions `{out}`",
+                    case=dict(kind="garith", loader=kind, rows=rows, sel=enc_sel(sel)))
 
 
 # ----------------------------------------------------------------------------- ParticleObjectStorer: list slicing
@@ -1460,10 +1580,16 @@ def replay(ctx, path):
     if not inp:
         b = d.get("broken") or []
         case = next((x.get("case") for x in b if x.get("case")), None)
-        if not case or case.get("kind") not in ("file", "pos-slice"):
+        if not case or case.get("kind") not in ("file", "pos-slice", "garith"):
             print(f"[C02] replay file names a broken obligation, not an input: {[x.get('what') for x in b][:3]}")
             return 1
         inp = case
+    if inp["kind"] == "garith":
+        rows, sel = [tuple(r) for r in inp["rows"]], dec_sel(inp["sel"])
+        real = arith_view(real_arith(inp["loader"], rows, sel))
+        out = arith_view(common.run_driver("C02", ["\t".join(["garith", inp["loader"], rmodel.sel_enc(sel), ",".join(f"{a}.{b}" for a, b in rows)])])[0])
+        print(f"[C02] code : {real}\n[C02] generated: {out}")
+        return 0 if real == out else 1
     if inp["kind"] == "pos-slice":
         import random
         n, sel = inp["n"], dec_sel(inp["sel"])
